@@ -7,7 +7,7 @@ import (
 // Families lists the family names in the order of their weights.
 var Families = []string{"typedecl", "generic", "chain", "stmts", "callgraph", "printf", "docs", "api", "typeuse"}
 
-var familyWeights = map[string]int{"typedecl": 3, "generic": 4, "chain": 3, "stmts": 4, "callgraph": 3, "printf": 3, "docs": 2, "api": 5, "typeuse": 3}
+var familyWeights = map[string]int{"typedecl": 2, "generic": 6, "chain": 5, "stmts": 4, "callgraph": 3, "printf": 4, "docs": 2, "api": 6, "typeuse": 3}
 
 // Generate draws a package.
 func Generate(t *rapid.T, name string, cfg Config) *Package {
@@ -25,6 +25,7 @@ func Generate(t *rapid.T, name string, cfg Config) *Package {
 			wheel = append(wheel, f)
 		}
 	}
+	g.heavy = rapid.IntRange(0, 3).Draw(t, "heavy") == 0
 	n := rapid.IntRange(cfg.MinUnits, cfg.MaxUnits).Draw(t, "nunits")
 	for i := 0; i < n; i++ {
 		g.family(wheel[rapid.IntRange(0, len(wheel)-1).Draw(t, "family")])
@@ -52,7 +53,7 @@ func (g *gen) family(f string) {
 	g.sc = nil
 	switch f {
 	case "typedecl":
-		g.declType(g.intn(0, 11, "typeform"))
+		g.declType(g.intn(0, 13, "typeform"))
 	case "generic":
 		g.genericFunc()
 	case "chain":
